@@ -707,6 +707,53 @@ def _trace_record(prog: Program, col: Collector, refs: Refs):
                 col.check(not miss, f"{f.fq}::{norm(d)[:60]}", "this definition of the recorded op is built from the call's positional and keyword arguments",
                           f"on this path the recorded op is `{norm(d.value)[:40]}`, which does not depend on {' / '.join(('**' if p == kw else '*') + p for p in miss)}: parameters passed "
                           "with the call are not part of the record, so the traced program applies another op than the one that ran", f.loc(d))
+        # positional and keyword parts of what the op is rebuilt from come from the SAME view of the call: either the call as written (the
+        # *args / **kwargs parameters) or the bound signature (bound.args / bound.kwargs).  BoundArguments.kwargs holds keyword-only parameters
+        # only, so a positional-or-keyword parameter passed by keyword (ops.sum(x, axis=0)) is in bound.args but neither in the raw positional
+        # arguments nor in bound.kwargs: mixing the two views loses it.
+        assigns_ = sorted([x for x in walk_no_nested(f.node) if isinstance(x, ast.Assign) and len(x.targets) == 1 and isinstance(x.targets[0], ast.Name)], key=lambda x: x.lineno)
+
+        def view(e, line, depth=0):
+            tags = set()
+            if depth > 5:
+                return {"?"}
+            for y in ast.walk(e):
+                if isinstance(y, ast.Attribute) and y.attr in ("args", "kwargs", "arguments") and isinstance(y.value, ast.Name):
+                    d0 = [a for a in assigns_ if a.targets[0].id == y.value.id and a.lineno < line]
+                    if d0 and isinstance(d0[-1].value, ast.Call) and norm(d0[-1].value.func).rsplit(".", 1)[-1] in ("bind", "bind_partial"):
+                        tags.add("bound")
+                        continue
+                if isinstance(y, ast.Name) and isinstance(y.ctx, ast.Load):
+                    par = f.module.parent.get(y)
+                    if isinstance(par, ast.Attribute) and par.attr in ("args", "kwargs", "arguments", "arity", "signature", "defaults"):
+                        continue
+                    d0 = [a for a in assigns_ if a.targets[0].id == y.id and a.lineno < line]
+                    if d0:
+                        tags |= view(d0[-1].value, d0[-1].lineno, depth + 1)
+                    elif y.id in (va, kw):
+                        tags.add("raw")
+            return tags
+        if isinstance(tup.elts[1], ast.Name):
+            for d in [x for x in assigns_ if x.targets[0].id == tup.elts[1].id]:
+                alts = [d.value.body, d.value.orelse] if isinstance(d.value, ast.IfExp) else [d.value]
+                tests = [d.value.test] if isinstance(d.value, ast.IfExp) else []
+                for alt in alts + tests:
+                    star = [a_.value for a_ in alt.args if isinstance(a_, ast.Starred)] if isinstance(alt, ast.Call) else []
+                    dstar = [k_.value for k_ in alt.keywords if k_.arg is None] if isinstance(alt, ast.Call) else []
+                    parts = (star + dstar) if isinstance(alt, ast.Call) else ([alt] if alt in tests else [])
+                    if not parts:
+                        continue
+                    vs = [view(p_, d.lineno) for p_ in parts]
+                    flat = set().union(*vs)
+                    construct = f"{f.fq}::{norm(alt)[:50]}::one view of the call"
+                    if "?" in flat or not flat:
+                        col.unresolved(construct, "origin of the positional / keyword parts not traced", f.loc(d))
+                    elif flat == {"bound"} or flat == {"raw"}:
+                        col.ok(construct, f"positional and keyword parts both come from the {'bound signature' if flat == {'bound'} else 'call as written'}", f.loc(d))
+                    else:
+                        col.violation(construct, f"`{norm(alt)[:50]}` takes one part from the call as written (*{va} / **{kw}) and the other from the bound signature (bound.args / bound.kwargs): "
+                                      "BoundArguments.kwargs holds keyword-only parameters only, so a positional-or-keyword parameter passed by keyword - ops.sum(x, axis=0), "
+                                      "ops.clamp(x, max=0.25) - is in neither part and the op is recorded with its default", f.loc(d))
         # the parameters an op INSTANCE carries (ops.SumOp(0), node.op of a Unary) are merged into the call's arguments by a loop over
         # self.defaults; what the record is built from must be read after that merge
         selfn = f.positional[0]
